@@ -171,6 +171,10 @@ def edge_scripts(work, module, cfg, tag, workers=4, timeout=900):
         # edge-cover scripts run gated (one scheduler iteration per poll step, long ticks); every step names its model transition
         scripts.append(convert_script(obj, "%s-%05d" % (tag, i + 1), "edge cover of %s" % cfg, tick_ms=GATED_TICK_MS, gated=True))
         scripts[-1]["itsrc"] = tag
+        if tag == "eburst":
+            for st in scripts[-1]["steps"]:
+                if st["op"] == "schedule":
+                    st["nosep"] = True
     stats["config"] = cfg
     stats["scripts"] = len(scripts)
     import pickle
@@ -390,17 +394,17 @@ TIERS = {
               "edges": [("Edges_Sched.tla", "Edges_Sched.cfg", "esched"), ("Edges_Delay.tla", "Edges_Delay.cfg", "edelay"),
                         ("Edges_Queue.tla", "Edges_Queue.cfg", "equeue"), ("Edges_Debounce.tla", "Edges_Debounce.cfg", "edebounce"),
                         ("Edges_Shut.tla", "Edges_Shut.cfg", "eshut"), ("Edges_Rest.tla", "Edges_Rest.cfg", "erest"),
-                        ("Edges_Ret.tla", "Edges_Ret.cfg", "eret")],
+                        ("Edges_Ret.tla", "Edges_Ret.cfg", "eret"), ("Edges_Burst.tla", "Edges_Burst.cfg", "eburst")],
               "mc": [("MC_Core.tla", "MC_Core.cfg"), ("MC_Sched.tla", "MC_Sched.cfg"), ("MC_Delay.tla", "MC_Delay.cfg"), ("MC_Delay.tla", "MC_Live.cfg"),
-                     ("MC_Queue.tla", "MC_Queue.cfg"), ("MC_Debounce.tla", "MC_Debounce.cfg"), ("MC_Shut.tla", "MC_Shut.cfg"), ("MC_Rest.tla", "MC_Rest.cfg"), ("MC_Ret.tla", "MC_Ret.cfg")]},
+                     ("MC_Queue.tla", "MC_Queue.cfg"), ("MC_Debounce.tla", "MC_Debounce.cfg"), ("MC_Shut.tla", "MC_Shut.cfg"), ("MC_Rest.tla", "MC_Rest.cfg"), ("MC_Ret.tla", "MC_Ret.cfg"), ("MC_Burst.tla", "MC_Burst.cfg")]},
     "thorough": {"sim": [("Sim_Core.tla", "Sim_Core.cfg", 6000, 300), ("Sim_Life.tla", "Sim_Life.cfg", 4000, 300)],
                  "edges": [("Edges_Sched.tla", "Edges_Sched.cfg", "esched"), ("Edges_Delay.tla", "Edges_Delay.cfg", "edelay"),
                            ("Edges_Queue.tla", "Edges_Queue.cfg", "equeue"), ("Edges_Debounce.tla", "Edges_Debounce.cfg", "edebounce"),
                            ("Edges_Shut.tla", "Edges_Shut.cfg", "eshut"), ("Edges_Rest.tla", "Edges_Rest.cfg", "erest"), ("Edges_Ret.tla", "Edges_Ret.cfg", "eret"),
-                           ("Edges_Core.tla", "Edges_Core.cfg", "ecore")],
+                           ("Edges_Burst.tla", "Edges_Burst.cfg", "eburst"), ("Edges_Core.tla", "Edges_Core.cfg", "ecore")],
                  "mc": [("MC_Core.tla", "MC_Core.cfg"), ("MC_Sched.tla", "MC_Sched.cfg"), ("MC_Delay.tla", "MC_Delay.cfg"), ("MC_Delay.tla", "MC_Live.cfg"),
                         ("MC_Queue.tla", "MC_Queue.cfg"), ("MC_Debounce.tla", "MC_Debounce.cfg"), ("MC_Shut.tla", "MC_Shut.cfg"), ("MC_Rest.tla", "MC_Rest.cfg"),
-                        ("MC_Ret.tla", "MC_Ret.cfg"), ("MC_Core.tla", "MC_Core3.cfg"), ("MC_Life.tla", "MC_Life.cfg")]},
+                        ("MC_Ret.tla", "MC_Ret.cfg"), ("MC_Burst.tla", "MC_Burst.cfg"), ("MC_Core.tla", "MC_Core3.cfg"), ("MC_Life.tla", "MC_Life.cfg")]},
 }
 
 
